@@ -126,8 +126,9 @@ type RIB struct {
 	// contains allow for entries that are pending since they have unsatifisied dependencies.
 	disableForwardReferences bool
 
-	// pendMu protects the pendingEntries map.
-	pendMu sync.RWMutex
+	// pendMu protects the pendingEntries map, and (through its add member)
+	// serialises the AddEntry calls that walk it.
+	pendMu pendingLocks
 	// pendingEntries is the set of entries that have been requested by
 	// the AddXXX methods that cannot yet be installed in the RIB because they do
 	// not resolve. Resolve is defined as canResolve returning true - which means that:
@@ -152,6 +153,17 @@ type RIB struct {
 	// can be fully resolved in the RIB. In the current implementation it
 	// is called only for IPv4 entries.
 	resolvedEntryHook ResolvedEntryFn
+}
+
+// pendingLocks are the locks associated with the pending entries of a RIB.
+type pendingLocks struct {
+	// RWMutex protects the pendingEntries map.
+	sync.RWMutex
+	// add serialises calls to AddEntry. Installing an entry walks the pending
+	// entries and installs those that have become resolvable; two concurrent
+	// walks (e.g., the outgoing and the incoming primary during a hand-over)
+	// could otherwise both install, and both acknowledge, the same pending entry.
+	add sync.Mutex
 }
 
 // RIBHolder is a container for a set of RIBs.
@@ -461,6 +473,9 @@ func (r *RIB) AddEntry(ni string, op *spb.AFTOperation) ([]*OpResult, []*OpResul
 	if ni == "" {
 		return nil, nil, fmt.Errorf("invalid network instance, %s", ni)
 	}
+
+	r.pendMu.add.Lock()
+	defer r.pendMu.add.Unlock()
 
 	oks, fails := []*OpResult{}, []*OpResult{}
 	checked := map[uint64]bool{}
